@@ -92,6 +92,8 @@ def generate(rng, tier, rep):
                 cases.append(mk(sub, ENDINGS[i % 5], meddle=True))
     for i, c in enumerate(cases):
         c['preset'] = bool(i % 2)
+        # the streams in effect before the run may be any objects, falsy ones included
+        c['falsy_streams'] = (i % 3 == 0)
     for c in cases:
         rep.count('preset=%s' % c['preset'])
         rep.count('ending=' + c['ending'])
